@@ -233,9 +233,16 @@ func genScenario(t *rapid.T, transports []string) Scenario {
 		s.Misuse = append(s.Misuse, m)
 	}
 	// interposition plan: first the schedule that belongs to the trigger, then a few generic waits
-	if s.spied() && rapid.IntRange(0, 9).Draw(t, "pin") < 7 {
+	if rapid.IntRange(0, 9).Draw(t, "pin") < 7 {
 		if w, ok := pinFor(s, s.Trigger); ok {
 			s.Waits = append(s.Waits, w)
+			var j int
+			if s.spied() && scan(s.Trigger, "lis.accept.return(%d)", &j) && rapid.IntRange(0, 2).Draw(t, "holdSd") > 0 {
+				// keep Shutdown inside its critical section (it calls Listener.Close with the
+				// server lock held) while the accept loop and the new conn's goroutine queue up
+				// behind the lock; "hold-expired" is never logged, the wait simply lasts TimeoutMs
+				s.Waits = append(s.Waits, memnet.Wait{At: "lis.close", For: "hold-expired", Once: true, TimeoutMs: rapid.SampledFrom([]int{5, 10, 20}).Draw(t, "holdSdMs")})
+			}
 		}
 	}
 	if s.spied() {
@@ -257,6 +264,11 @@ func pinFor(s Scenario, ev string) (memnet.Wait, bool) {
 		// between isStarted() and readTCP: Shutdown sets the past deadline, then readTCP runs
 		return memnet.Wait{At: ev, For: fmt.Sprintf("conn(%d).setReadDeadline(past)", j), Once: true}, true
 	case !s.stream() && strings.HasPrefix(ev, "reader.enter(pc,"):
+		if !s.spied() {
+			// real UDP socket: its deadline calls are not observable; "release" is logged HoldMs
+			// after shutdown.call, when Shutdown has long set the past deadline
+			return memnet.Wait{At: ev, For: "release", Once: true}, true
+		}
 		return memnet.Wait{At: ev, For: "pc.setReadDeadline(past)", Once: true}, true
 	case scan(ev, "lis.accept.return(%d)", &j):
 		// Accept has produced conn j, which gets registered only after Shutdown walked the conns
